@@ -457,8 +457,8 @@ def prop_balance(ch, ctx):
 
 
 PROPS = {
-    'single': (prop_single, 4500, 260000),
-    'sets': (prop_sets, 3000, 200000),
-    'parser': (prop_parser, 800, 40000),
+    'single': (prop_single, 4500, 180000),
+    'sets': (prop_sets, 3000, 140000),
+    'parser': (prop_parser, 800, 30000),
     'balance': (prop_balance, 1200, 50000),
 }
